@@ -321,11 +321,28 @@ def run_standins(pid: str) -> List[Dict[str, Any]]:
                 continue
             t = time.time()
             cases, viol = m.run()
-            out.append({'name': m.NAME, 'bound': m.BOUND, 'cases': cases, 'violations': viol, 'labelled': 'bounded',
-                        'wall_s': round(time.time() - t, 2)})
+            rec = {'name': m.NAME, 'bound': m.BOUND, 'cases': cases, 'violations': viol, 'labelled': 'bounded',
+                   'wall_s': round(time.time() - t, 2), 'known': []}
+            if hasattr(m, 'run_known'):
+                # inputs of a recorded (not repaired) defect: reported as KNOWN-FINDING while they still fail and are
+                # listed in known_findings.json; an unlisted one is a violation
+                for key, fails, detail in m.run_known():
+                    if fails:
+                        rec['known'].append({'key': f'{m.NAME}:{key}', 'detail': detail})
+            out.append(rec)
         except Exception:
             out.append({'name': n, 'error': traceback.format_exc(), 'violations': [], 'cases': 0, 'labelled': 'bounded'})
     return out
+
+
+def load_known(pid: str) -> Dict[str, str]:
+    """known_findings.json 'known' entries of this property: key -> text (committed file, never written at run time)"""
+    try:
+        with open(os.path.join(HERE, 'known_findings.json')) as fh:
+            kf = json.load(fh)
+    except Exception:
+        return {}
+    return {e['key']: e['text'] for e in kf.get('known', []) if e.get('property') == pid}
 
 
 def relevant(ob: Dict[str, Any], pid: str) -> bool:
@@ -449,6 +466,20 @@ def report(pid: str, a, results: List[Dict[str, Any]], seed: int, wall: float, c
             print(f"  bounded stand-in {sd['name']} found a failing input: {json.dumps(vl, default=str)[:300]}")
             lines.append(f'VIOLATION property={pid} replay={path}')
             rc = 1
+    known = load_known(pid)
+    for sd in standins:
+        for kf in sd.get('known', []):
+            ent = known.get(kf['key'])
+            if ent is not None:
+                print(f"KNOWN-FINDING: property={pid} {ent}")
+            else:
+                h = hashlib.sha1(kf['key'].encode()).hexdigest()[:10]
+                path = os.path.join(HERE, 'replays', f'{pid}-standin-{h}.json')
+                with open(path, 'w') as fh:
+                    json.dump({'property': pid, 'standin': sd['name'], 'function': sd['name'], 'failing_input': kf}, fh,
+                              indent=1, default=str)
+                lines.append(f'VIOLATION property={pid} replay={path}')
+                rc = 1
     for u in undecided:
         print(f'UNDECIDED {u}')
     for e in errors:
